@@ -601,6 +601,76 @@ def fill_map_complete(chk, rule: str):
 _TYPED_SPEC = set("dxXobeEfFgGn%c")
 
 
+def _enclosing_name(raw, node):
+    best = None
+    for f_ in ast.walk(raw):
+        if isinstance(f_, (ast.FunctionDef, ast.ClassDef)) and f_.lineno <= node.lineno <= (f_.end_lineno or f_.lineno):
+            if best is None or f_.lineno >= best.lineno:
+                best = f_
+    if best is None:
+        return "<module>"
+    owner = next((k.name + "." for k in ast.walk(raw) if isinstance(k, ast.ClassDef) and best in k.body), "")
+    return owner + best.name
+
+
+def _log_lookup_can_fail(folder, m, raw, call, sub):
+    """None when `TABLE[idx]` inside a logging call is known not to raise; else a reason.  TABLE must fold to a dict of the module
+    (anything else is not decided here).  Safe: a literal key of the table; a local whose every definition in the function takes its
+    value out of another constant table whose values are all keys; a look-up guarded by `idx in TABLE` or by a KeyError handler."""
+    table = folder.try_fold(sub.value, Scope(m), None)
+    if not isinstance(table, dict):
+        return None
+    idx = sub.slice
+    k = folder.try_fold(idx, Scope(m), None)
+    if k is not None and not isinstance(idx, (ast.Name, ast.Attribute)):
+        return None if k in table else f"for the key {k!r}"
+    fn = None
+    for f_ in ast.walk(raw):
+        if isinstance(f_, ast.FunctionDef) and f_.lineno <= call.lineno <= (f_.end_lineno or f_.lineno) and (fn is None or f_.lineno >= fn.lineno):
+            fn = f_
+    if fn is None:
+        return None
+    isrc = ast.unparse(idx)
+    # guarded by membership or by a KeyError handler
+    for n in ast.walk(fn):
+        if isinstance(n, ast.If) and any(call is x for b in n.body for x in ast.walk(b)):
+            t = ast.unparse(n.test)
+            if f"{isrc} in {ast.unparse(sub.value)}" in t and "not in" not in t:
+                return None
+        if isinstance(n, ast.Try) and any(call is x for b in n.body for x in ast.walk(b)) and any(
+                h.type is None or any(nm in ast.unparse(h.type) for nm in ("KeyError", "LookupError", "Exception")) for h in n.handlers):
+            return None
+    if isinstance(idx, ast.Name):
+        defs = [n for n in ast.walk(fn) if isinstance(n, ast.Assign) and any(isinstance(t, ast.Name) and t.id == idx.id for t in n.targets)]
+        if defs and all(isinstance(d.value, ast.Subscript) and isinstance(folder.try_fold(d.value.value, Scope(m), None), dict)
+                        and set(folder.try_fold(d.value.value, Scope(m), None).values()) <= set(table) for d in defs):
+            return None
+        if defs:
+            return f"when {idx.id} (set by `{ast.unparse(defs[0])[:50]}`) is not one of the {len(table)} keys"
+        return None                                  # a parameter: what callers pass is not decided here
+    if isinstance(idx, ast.Attribute) and isinstance(idx.value, ast.Name) and idx.value.id == "self":
+        # state kept on the object: every store to it in the module must be a value known to be a key
+        stores = [n for n in ast.walk(raw) if isinstance(n, ast.Assign) and any(isinstance(t, ast.Attribute) and t.attr == idx.attr and isinstance(t.value, ast.Name) and t.value.id == "self" for t in n.targets)]
+        outside = []
+        for st in stores:
+            v = folder.try_fold(st.value, Scope(m), None)
+            if v is not None and v in table:
+                continue
+            if isinstance(st.value, ast.Subscript) and isinstance(folder.try_fold(st.value.value, Scope(m), None), dict) \
+                    and set(folder.try_fold(st.value.value, Scope(m), None).values()) <= set(table):
+                continue
+            if isinstance(st.value, ast.Name):
+                f2 = next((f_ for f_ in ast.walk(raw) if isinstance(f_, ast.FunctionDef) and any(st is y for y in ast.walk(f_))), None)
+                d2 = [n for n in ast.walk(f2) if isinstance(n, ast.Assign) and any(isinstance(t, ast.Name) and t.id == st.value.id for t in n.targets)] if f2 else []
+                if d2 and all(isinstance(d.value, ast.Subscript) and isinstance(folder.try_fold(d.value.value, Scope(m), None), dict)
+                              and set(folder.try_fold(d.value.value, Scope(m), None).values()) <= set(table) for d in d2):
+                    continue
+            outside.append(st)
+        if outside:
+            return f"when {isrc} holds a value that is not a key of the table -- `{ast.unparse(outside[0])[:50]}` (line {outside[0].lineno}) stores values the table does not list"
+    return None
+
+
 def logging_inert(chk, rule: str, rels=None):
     """The canonical form drops logging statements because no property speaks about log output.  That is only sound while a
     logging statement cannot change behaviour: with lazy %-style arguments a formatting error is swallowed by the logging
@@ -647,6 +717,13 @@ def logging_inert(chk, rule: str, rels=None):
                     elif bad is None and isinstance(x, ast.Attribute) and isinstance(x.ctx, ast.Load) and x.attr in dividing and isinstance(x.value, ast.Name) and x.value.id == "self" \
                             and dividing[x.attr].kind in ("getter", "method", "static", "function"):
                         bad = f"`{ast.unparse(x)}` evaluates {dividing[x.attr].qualname}, which divides (ZeroDivisionError for a zero divisor); it"
+                    if bad is None and isinstance(x, ast.Subscript) and isinstance(x.ctx, ast.Load) and isinstance(x.value, ast.Name):
+                        why = _log_lookup_can_fail(folder, m, raw, c, x)
+                        if why:
+                            chk.bad(rule, f"{m.rel}:{_enclosing_name(raw, c)} | table look-up `{ast.unparse(x)}` in a log argument cannot fail", f"{m.rel}:{c.lineno}",
+                                    f"`{ast.unparse(x)}` is evaluated before the {c.func.attr}() call and raises KeyError {why}: the exception leaves the operation at the log "
+                                    f"statement, before the statements that follow it (the state change, the frame) are carried out")
+                            break
                     if bad:
                         chk.bad(rule, f"{m.rel}:{c.lineno} | logging statement cannot raise", f"{m.rel}:{c.lineno}",
                                 f"{bad} is formatted eagerly inside a {c.func.attr}() call: a value of another type (float, None) raises here, in the middle of the operation, "
